@@ -76,26 +76,36 @@ def build_constraint(c, objs):
     raise ValueError(k)
 
 
-def build_block(b, objs):
+def build_block(b, objs, cons_cache=None):
+    """cons_cache: dict canon(constraint spec) -> constraint object; when given, equal constraint specs share ONE object"""
     op = b['op']
-    cs = [build_constraint(c, objs) for c in b.get('constraints', [])]
+    if cons_cache is None:
+        cs = [build_constraint(c, objs) for c in b.get('constraints', [])]
+    else:
+        import json
+        cs = []
+        for c in b.get('constraints', []):
+            k = json.dumps(c, sort_keys=True)
+            if k not in cons_cache:
+                cons_cache[k] = build_constraint(c, objs)
+            cs.append(cons_cache[k])
     if op == 'cross':
         return sp.CrossBlock([objs[n] for n in b['design']], [objs[n] for n in b['crossing']], cs, b.get('rcc', True))
     if op == 'multi':
         return sp.MultiCrossBlock([objs[n] for n in b['design']], [[objs[n] for n in c] for c in b['crossings']], cs,
                                   b.get('rcc', True), mode=b.get('mode', 'equal'), alignment=b.get('alignment', 'equal preamble'))
     if op == 'repeat':
-        return sp.Repeat(build_block(b['block'], objs), cs)
+        return sp.Repeat(build_block(b['block'], objs, cons_cache), cs)
     if op == 'merge':
         kw = {}
         if b.get('alignment'):
             kw['alignment'] = b['alignment']
-        return sp.Merge([build_block(x, objs) for x in b['blocks']], cs, mode=b.get('mode', 'repeat'), **kw)
+        return sp.Merge([build_block(x, objs, cons_cache) for x in b['blocks']], cs, mode=b.get('mode', 'repeat'), **kw)
     if op == 'nest':
         kw = {}
         if b.get('alignment'):
             kw['alignment'] = b['alignment']
-        return sp.Nest(build_block(b['outer'], objs), build_block(b['inner'], objs), cs, **kw)
+        return sp.Nest(build_block(b['outer'], objs, cons_cache), build_block(b['inner'], objs, cons_cache), cs, **kw)
     raise ValueError(op)
 
 
